@@ -78,36 +78,36 @@ where
     New: Index<usize> + ?Sized,
     D: DiffHook,
     New::Output: PartialEq<Old::Output>,
-/*@*/     requires diff_pre(*vstd::prelude::old(d), old, old_range, new, new_range),
+/*@*/     requires diff_pre(*vstd::prelude::old(d), old, old_range, new, new_range, alg_lvl(deadline)),
 /*@*/         (old_range.end - old_range.start) <= u32::MAX || (new_range.end - new_range.start) <= u32::MAX,   // table cells are u32
 /*@*/     ensures
 /*@*/         err_post(*vstd::prelude::old(d), *final(d), res),
-/*@*/         seg_post(*vstd::prelude::old(d), *final(d), old, old_range, new, new_range, fin::<D>(), res.is_ok()),
+/*@*/         seg_post(*vstd::prelude::old(d), *final(d), old, old_range, new, new_range, alg_lvl(deadline), fin::<D>(), res.is_ok()),
 {
     /*@*/ broadcast use {axiom_pure_index, axiom_pure_eq};
-    /*@*/ let ghost rel = rel_of(old, new);
+    /*@*/ let ghost rel = rel_of(old, new); let ghost lvl = alg_lvl(deadline);
     /*@*/ let ghost o0 = old_range.start as int; let ghost n0 = new_range.start as int;
     /*@*/ let ghost oe0 = old_range.end as int; let ghost ne0 = new_range.end as int;
     /*@*/ let ghost d0 = *d; let ghost t0 = d.trace(); let ghost rs0 = d.rely_st(); let ghost r1 = d.rely_rel();
     /*@*/ let ghost mut s: Seq<Ev> = Seq::empty();
     /*@*/ let ghost mut oc: int = o0; let ghost mut nc: int = n0;
-    /*@*/ proof { lemma_seg_empty(rel, o0, n0); lemma_run_empty(r1, rs0); assert(t0 + s =~= t0); assert(alg_inv(*d, d0, t0, s, rel, rs0, o0, n0, oc, nc)); }
+    /*@*/ proof { lemma_seg_empty(rel, lvl, o0, n0); lemma_run_empty(r1, rs0); assert(t0 + s =~= t0); assert(alg_inv(*d, d0, t0, s, rel, lvl, rs0, o0, n0, oc, nc)); }
     if is_empty_range(&new_range) {
         if !is_empty_range(&old_range) {
-            /*@*/ proof { let e = Ev::Delete(old_range.start, (old_range.end - old_range.start) as usize, new_range.start);  if d0.relies() { pre_call(rel, r1, s, e, o0, n0, oc, nc, rs0); } }
+            /*@*/ proof { let e = Ev::Delete(old_range.start, (old_range.end - old_range.start) as usize, new_range.start);  if d0.relies() { pre_call(rel, r1, lvl, s, e, o0, n0, oc, nc, rs0); } }
             d.delete(old_range.start, old_range.len(), new_range.start)?;
-            /*@*/ proof { let e = Ev::Delete(old_range.start, (old_range.end - old_range.start) as usize, new_range.start); post_call(rel, r1, s, e, o0, n0, oc, nc, rs0); assert((t0 + s).push(e) =~= t0 + s.push(e)); s = s.push(e); oc = oc + (old_range.end - old_range.start);
-            /*@*/     assert(alg_inv(*d, d0, t0, s, rel, rs0, o0, n0, oc, nc)); }
+            /*@*/ proof { let e = Ev::Delete(old_range.start, (old_range.end - old_range.start) as usize, new_range.start); post_call(rel, r1, lvl, s, e, o0, n0, oc, nc, rs0); assert((t0 + s).push(e) =~= t0 + s.push(e)); s = s.push(e); oc = oc + (old_range.end - old_range.start);
+            /*@*/     assert(alg_inv(*d, d0, t0, s, rel, lvl, rs0, o0, n0, oc, nc)); }
         }
-        /*@*/ proof { assert(oc == oe0 && nc == ne0); assert(seg(old, new, s, o0, n0, oe0, ne0)); if d0.relies() { lemma_seg_any(rel, r1, s, o0, n0, oe0, ne0, rs0); } lemma_run_fin::<D>(r1, rs0, s); }
+        /*@*/ proof { assert(oc == oe0 && nc == ne0); assert(seg(old, new, lvl, s, o0, n0, oe0, ne0)); if d0.relies() { lemma_seg_any(rel, r1, lvl, s, o0, n0, oe0, ne0, rs0); } lemma_run_fin::<D>(r1, rs0, s); }
         d.finish()?;
         return Ok(());
     } else if is_empty_range(&old_range) {
-        /*@*/ proof { let e = Ev::Insert(old_range.start, new_range.start, (new_range.end - new_range.start) as usize);  if d0.relies() { pre_call(rel, r1, s, e, o0, n0, oc, nc, rs0); } }
+        /*@*/ proof { let e = Ev::Insert(old_range.start, new_range.start, (new_range.end - new_range.start) as usize);  if d0.relies() { pre_call(rel, r1, lvl, s, e, o0, n0, oc, nc, rs0); } }
         d.insert(old_range.start, new_range.start, new_range.len())?;
-        /*@*/ proof { let e = Ev::Insert(old_range.start, new_range.start, (new_range.end - new_range.start) as usize); post_call(rel, r1, s, e, o0, n0, oc, nc, rs0); assert((t0 + s).push(e) =~= t0 + s.push(e)); s = s.push(e); nc = nc + (new_range.end - new_range.start);
-        /*@*/     assert(alg_inv(*d, d0, t0, s, rel, rs0, o0, n0, oc, nc)); }
-        /*@*/ proof { assert(oc == oe0 && nc == ne0); assert(seg(old, new, s, o0, n0, oe0, ne0)); if d0.relies() { lemma_seg_any(rel, r1, s, o0, n0, oe0, ne0, rs0); } lemma_run_fin::<D>(r1, rs0, s); }
+        /*@*/ proof { let e = Ev::Insert(old_range.start, new_range.start, (new_range.end - new_range.start) as usize); post_call(rel, r1, lvl, s, e, o0, n0, oc, nc, rs0); assert((t0 + s).push(e) =~= t0 + s.push(e)); s = s.push(e); nc = nc + (new_range.end - new_range.start);
+        /*@*/     assert(alg_inv(*d, d0, t0, s, rel, lvl, rs0, o0, n0, oc, nc)); }
+        /*@*/ proof { assert(oc == oe0 && nc == ne0); assert(seg(old, new, lvl, s, o0, n0, oe0, ne0)); if d0.relies() { lemma_seg_any(rel, r1, lvl, s, o0, n0, oe0, ne0, rs0); } lemma_run_fin::<D>(r1, rs0, s); }
         d.finish()?;
         return Ok(());
     }
@@ -122,11 +122,11 @@ where
 
     // If the sequences are not different then we're done
     if common_prefix_len == old_range.len() && (old_range.len() == new_range.len()) {
-        /*@*/ proof { let e = Ev::Equal(old_range.start, new_range.start, (old_range.end - old_range.start) as usize);  if d0.relies() { pre_call(rel, r1, s, e, o0, n0, oc, nc, rs0); } }
+        /*@*/ proof { let e = Ev::Equal(old_range.start, new_range.start, (old_range.end - old_range.start) as usize);  if d0.relies() { pre_call(rel, r1, lvl, s, e, o0, n0, oc, nc, rs0); } }
         d.equal(old_range.start, new_range.start, old_range.len())?;
-        /*@*/ proof { let e = Ev::Equal(old_range.start, new_range.start, (old_range.end - old_range.start) as usize); post_call(rel, r1, s, e, o0, n0, oc, nc, rs0); assert((t0 + s).push(e) =~= t0 + s.push(e)); s = s.push(e); oc = oc + (old_range.end - old_range.start); nc = nc + (old_range.end - old_range.start);
-        /*@*/     assert(alg_inv(*d, d0, t0, s, rel, rs0, o0, n0, oc, nc)); }
-        /*@*/ proof { assert(oc == oe0 && nc == ne0); assert(seg(old, new, s, o0, n0, oe0, ne0)); if d0.relies() { lemma_seg_any(rel, r1, s, o0, n0, oe0, ne0, rs0); } lemma_run_fin::<D>(r1, rs0, s); }
+        /*@*/ proof { let e = Ev::Equal(old_range.start, new_range.start, (old_range.end - old_range.start) as usize); post_call(rel, r1, lvl, s, e, o0, n0, oc, nc, rs0); assert((t0 + s).push(e) =~= t0 + s.push(e)); s = s.push(e); oc = oc + (old_range.end - old_range.start); nc = nc + (old_range.end - old_range.start);
+        /*@*/     assert(alg_inv(*d, d0, t0, s, rel, lvl, rs0, o0, n0, oc, nc)); }
+        /*@*/ proof { assert(oc == oe0 && nc == ne0); assert(seg(old, new, lvl, s, o0, n0, oe0, ne0)); if d0.relies() { lemma_seg_any(rel, r1, lvl, s, o0, n0, oe0, ne0, rs0); } lemma_run_fin::<D>(r1, rs0, s); }
         d.finish()?;
         return Ok(());
     }
@@ -144,18 +144,18 @@ where
     let old_len = old_range.len() - common_prefix_len - common_suffix_len;
 
     if common_prefix_len > 0 {
-        /*@*/ proof { let e = Ev::Equal(old_range.start, new_range.start, common_prefix_len);  if d0.relies() { pre_call(rel, r1, s, e, o0, n0, oc, nc, rs0); } }
+        /*@*/ proof { let e = Ev::Equal(old_range.start, new_range.start, common_prefix_len);  if d0.relies() { pre_call(rel, r1, lvl, s, e, o0, n0, oc, nc, rs0); } }
         d.equal(old_range.start, new_range.start, common_prefix_len)?;
-        /*@*/ proof { let e = Ev::Equal(old_range.start, new_range.start, common_prefix_len); post_call(rel, r1, s, e, o0, n0, oc, nc, rs0); assert((t0 + s).push(e) =~= t0 + s.push(e)); s = s.push(e); oc = oc + common_prefix_len; nc = nc + common_prefix_len;
-        /*@*/     assert(alg_inv(*d, d0, t0, s, rel, rs0, o0, n0, oc, nc)); }
+        /*@*/ proof { let e = Ev::Equal(old_range.start, new_range.start, common_prefix_len); post_call(rel, r1, lvl, s, e, o0, n0, oc, nc, rs0); assert((t0 + s).push(e) =~= t0 + s.push(e)); s = s.push(e); oc = oc + common_prefix_len; nc = nc + common_prefix_len;
+        /*@*/     assert(alg_inv(*d, d0, t0, s, rel, lvl, rs0, o0, n0, oc, nc)); }
     }
 
     if let Some(table) = maybe_table {
         while new_idx < new_len && old_idx < old_len
         /*@*/     invariant
-        /*@*/         alg_inv(*d, d0, t0, s, rel, rs0, o0, n0, oc, nc),
-        /*@*/         box_pre(old, old_range, new, new_range), rely_pre(d0, old, old_range, new, new_range),
-        /*@*/         rel == rel_of(old, new), r1 == d0.rely_rel(), o0 == old_range.start, n0 == new_range.start,
+        /*@*/         alg_inv(*d, d0, t0, s, rel, lvl, rs0, o0, n0, oc, nc),
+        /*@*/         box_pre(old, old_range, new, new_range), rely_pre(d0, old, old_range, new, new_range, lvl),
+        /*@*/         rel == rel_of(old, new), lvl == alg_lvl(deadline), r1 == d0.rely_rel(), o0 == old_range.start, n0 == new_range.start,
         /*@*/         d0 == *vstd::prelude::old(d), rs0 == d0.rely_st(), t0 == d0.trace(), oe0 == old_range.end, ne0 == new_range.end,
         /*@*/         old_len == old_range.end - old_range.start - common_prefix_len - common_suffix_len,
         /*@*/         new_len == new_range.end - new_range.start - common_prefix_len - common_suffix_len,
@@ -168,25 +168,25 @@ where
             let new_orig_idx = new_range.start + common_prefix_len + new_idx;
 
             if new[new_orig_idx] == old[old_orig_idx] {
-                /*@*/ proof { let e = Ev::Equal(old_orig_idx, new_orig_idx, 1); assert(eqv(old, old_orig_idx as int, new, new_orig_idx as int)); assert(relk(rel, old_orig_idx as int, new_orig_idx as int, 0)); if d0.relies() { pre_call(rel, r1, s, e, o0, n0, oc, nc, rs0); } }
+                /*@*/ proof { let e = Ev::Equal(old_orig_idx, new_orig_idx, 1); assert(eqv(old, old_orig_idx as int, new, new_orig_idx as int)); assert(relk(rel, old_orig_idx as int, new_orig_idx as int, 0)); if d0.relies() { pre_call(rel, r1, lvl, s, e, o0, n0, oc, nc, rs0); } }
                 d.equal(old_orig_idx, new_orig_idx, 1)?;
-                /*@*/ proof { let e = Ev::Equal(old_orig_idx, new_orig_idx, 1); post_call(rel, r1, s, e, o0, n0, oc, nc, rs0); assert((t0 + s).push(e) =~= t0 + s.push(e)); s = s.push(e); oc = oc + 1; nc = nc + 1;
-                /*@*/     assert(alg_inv(*d, d0, t0, s, rel, rs0, o0, n0, oc, nc)); }
+                /*@*/ proof { let e = Ev::Equal(old_orig_idx, new_orig_idx, 1); post_call(rel, r1, lvl, s, e, o0, n0, oc, nc, rs0); assert((t0 + s).push(e) =~= t0 + s.push(e)); s = s.push(e); oc = oc + 1; nc = nc + 1;
+                /*@*/     assert(alg_inv(*d, d0, t0, s, rel, lvl, rs0, o0, n0, oc, nc)); }
                 old_idx += 1;
                 new_idx += 1;
             } else if table.get(&(new_idx, old_idx + 1)).unwrap_or(&0)
                 >= table.get(&(new_idx + 1, old_idx)).unwrap_or(&0)
             {
-                /*@*/ proof { let e = Ev::Delete(old_orig_idx, 1, new_orig_idx);  if d0.relies() { pre_call(rel, r1, s, e, o0, n0, oc, nc, rs0); } }
+                /*@*/ proof { let e = Ev::Delete(old_orig_idx, 1, new_orig_idx);  if d0.relies() { pre_call(rel, r1, lvl, s, e, o0, n0, oc, nc, rs0); } }
                 d.delete(old_orig_idx, 1, new_orig_idx)?;
-                /*@*/ proof { let e = Ev::Delete(old_orig_idx, 1, new_orig_idx); post_call(rel, r1, s, e, o0, n0, oc, nc, rs0); assert((t0 + s).push(e) =~= t0 + s.push(e)); s = s.push(e); oc = oc + 1;
-                /*@*/     assert(alg_inv(*d, d0, t0, s, rel, rs0, o0, n0, oc, nc)); }
+                /*@*/ proof { let e = Ev::Delete(old_orig_idx, 1, new_orig_idx); post_call(rel, r1, lvl, s, e, o0, n0, oc, nc, rs0); assert((t0 + s).push(e) =~= t0 + s.push(e)); s = s.push(e); oc = oc + 1;
+                /*@*/     assert(alg_inv(*d, d0, t0, s, rel, lvl, rs0, o0, n0, oc, nc)); }
                 old_idx += 1;
             } else {
-                /*@*/ proof { let e = Ev::Insert(old_orig_idx, new_orig_idx, 1);  if d0.relies() { pre_call(rel, r1, s, e, o0, n0, oc, nc, rs0); } }
+                /*@*/ proof { let e = Ev::Insert(old_orig_idx, new_orig_idx, 1);  if d0.relies() { pre_call(rel, r1, lvl, s, e, o0, n0, oc, nc, rs0); } }
                 d.insert(old_orig_idx, new_orig_idx, 1)?;
-                /*@*/ proof { let e = Ev::Insert(old_orig_idx, new_orig_idx, 1); post_call(rel, r1, s, e, o0, n0, oc, nc, rs0); assert((t0 + s).push(e) =~= t0 + s.push(e)); s = s.push(e); nc = nc + 1;
-                /*@*/     assert(alg_inv(*d, d0, t0, s, rel, rs0, o0, n0, oc, nc)); }
+                /*@*/ proof { let e = Ev::Insert(old_orig_idx, new_orig_idx, 1); post_call(rel, r1, lvl, s, e, o0, n0, oc, nc, rs0); assert((t0 + s).push(e) =~= t0 + s.push(e)); s = s.push(e); nc = nc + 1;
+                /*@*/     assert(alg_inv(*d, d0, t0, s, rel, lvl, rs0, o0, n0, oc, nc)); }
                 new_idx += 1;
             }
         }
@@ -195,40 +195,40 @@ where
     // inserted by the code below.
 
     if old_idx < old_len {
-        /*@*/ proof { let e = Ev::Delete((old_range.start + common_prefix_len + old_idx) as usize, (old_len - old_idx) as usize, (new_range.start + common_prefix_len + new_idx) as usize);  if d0.relies() { pre_call(rel, r1, s, e, o0, n0, oc, nc, rs0); } }
+        /*@*/ proof { let e = Ev::Delete((old_range.start + common_prefix_len + old_idx) as usize, (old_len - old_idx) as usize, (new_range.start + common_prefix_len + new_idx) as usize);  if d0.relies() { pre_call(rel, r1, lvl, s, e, o0, n0, oc, nc, rs0); } }
         d.delete(
             old_range.start + common_prefix_len + old_idx,
             old_len - old_idx,
             new_range.start + common_prefix_len + new_idx,
         )?;
-        /*@*/ proof { let e = Ev::Delete((old_range.start + common_prefix_len + old_idx) as usize, (old_len - old_idx) as usize, (new_range.start + common_prefix_len + new_idx) as usize); post_call(rel, r1, s, e, o0, n0, oc, nc, rs0); assert((t0 + s).push(e) =~= t0 + s.push(e)); s = s.push(e); oc = oc + (old_len - old_idx);
-        /*@*/     assert(alg_inv(*d, d0, t0, s, rel, rs0, o0, n0, oc, nc)); }
+        /*@*/ proof { let e = Ev::Delete((old_range.start + common_prefix_len + old_idx) as usize, (old_len - old_idx) as usize, (new_range.start + common_prefix_len + new_idx) as usize); post_call(rel, r1, lvl, s, e, o0, n0, oc, nc, rs0); assert((t0 + s).push(e) =~= t0 + s.push(e)); s = s.push(e); oc = oc + (old_len - old_idx);
+        /*@*/     assert(alg_inv(*d, d0, t0, s, rel, lvl, rs0, o0, n0, oc, nc)); }
         old_idx += old_len - old_idx;
     }
 
     if new_idx < new_len {
-        /*@*/ proof { let e = Ev::Insert((old_range.start + common_prefix_len + old_idx) as usize, (new_range.start + common_prefix_len + new_idx) as usize, (new_len - new_idx) as usize);  if d0.relies() { pre_call(rel, r1, s, e, o0, n0, oc, nc, rs0); } }
+        /*@*/ proof { let e = Ev::Insert((old_range.start + common_prefix_len + old_idx) as usize, (new_range.start + common_prefix_len + new_idx) as usize, (new_len - new_idx) as usize);  if d0.relies() { pre_call(rel, r1, lvl, s, e, o0, n0, oc, nc, rs0); } }
         d.insert(
             old_range.start + common_prefix_len + old_idx,
             new_range.start + common_prefix_len + new_idx,
             new_len - new_idx,
         )?;
-        /*@*/ proof { let e = Ev::Insert((old_range.start + common_prefix_len + old_idx) as usize, (new_range.start + common_prefix_len + new_idx) as usize, (new_len - new_idx) as usize); post_call(rel, r1, s, e, o0, n0, oc, nc, rs0); assert((t0 + s).push(e) =~= t0 + s.push(e)); s = s.push(e); nc = nc + (new_len - new_idx);
-        /*@*/     assert(alg_inv(*d, d0, t0, s, rel, rs0, o0, n0, oc, nc)); }
+        /*@*/ proof { let e = Ev::Insert((old_range.start + common_prefix_len + old_idx) as usize, (new_range.start + common_prefix_len + new_idx) as usize, (new_len - new_idx) as usize); post_call(rel, r1, lvl, s, e, o0, n0, oc, nc, rs0); assert((t0 + s).push(e) =~= t0 + s.push(e)); s = s.push(e); nc = nc + (new_len - new_idx);
+        /*@*/     assert(alg_inv(*d, d0, t0, s, rel, lvl, rs0, o0, n0, oc, nc)); }
     }
 
     if common_suffix_len > 0 {
-        /*@*/ proof { let e = Ev::Equal((old_range.start + old_len + common_prefix_len) as usize, (new_range.start + new_len + common_prefix_len) as usize, common_suffix_len);  if d0.relies() { pre_call(rel, r1, s, e, o0, n0, oc, nc, rs0); } }
+        /*@*/ proof { let e = Ev::Equal((old_range.start + old_len + common_prefix_len) as usize, (new_range.start + new_len + common_prefix_len) as usize, common_suffix_len);  if d0.relies() { pre_call(rel, r1, lvl, s, e, o0, n0, oc, nc, rs0); } }
         d.equal(
             old_range.start + old_len + common_prefix_len,
             new_range.start + new_len + common_prefix_len,
             common_suffix_len,
         )?;
-        /*@*/ proof { let e = Ev::Equal((old_range.start + old_len + common_prefix_len) as usize, (new_range.start + new_len + common_prefix_len) as usize, common_suffix_len); post_call(rel, r1, s, e, o0, n0, oc, nc, rs0); assert((t0 + s).push(e) =~= t0 + s.push(e)); s = s.push(e); oc = oc + common_suffix_len; nc = nc + common_suffix_len;
-        /*@*/     assert(alg_inv(*d, d0, t0, s, rel, rs0, o0, n0, oc, nc)); }
+        /*@*/ proof { let e = Ev::Equal((old_range.start + old_len + common_prefix_len) as usize, (new_range.start + new_len + common_prefix_len) as usize, common_suffix_len); post_call(rel, r1, lvl, s, e, o0, n0, oc, nc, rs0); assert((t0 + s).push(e) =~= t0 + s.push(e)); s = s.push(e); oc = oc + common_suffix_len; nc = nc + common_suffix_len;
+        /*@*/     assert(alg_inv(*d, d0, t0, s, rel, lvl, rs0, o0, n0, oc, nc)); }
     }
 
-    /*@*/ proof { assert(oc == oe0 && nc == ne0); assert(seg(old, new, s, o0, n0, oe0, ne0)); if d0.relies() { lemma_seg_any(rel, r1, s, o0, n0, oe0, ne0, rs0); } lemma_run_fin::<D>(r1, rs0, s); }
+    /*@*/ proof { assert(oc == oe0 && nc == ne0); assert(seg(old, new, lvl, s, o0, n0, oe0, ne0)); if d0.relies() { lemma_seg_any(rel, r1, lvl, s, o0, n0, oe0, ne0, rs0); } lemma_run_fin::<D>(r1, rs0, s); }
     d.finish()
 }
 //@@ end
@@ -246,11 +246,11 @@ where
     New: Index<usize> + ?Sized,
     D: DiffHook,
     New::Output: PartialEq<Old::Output>,
-/*@*/     requires diff_pre(*vstd::prelude::old(d), old, old_range, new, new_range),
+/*@*/     requires diff_pre(*vstd::prelude::old(d), old, old_range, new, new_range, alg_lvl(None)),
 /*@*/         (old_range.end - old_range.start) <= u32::MAX || (new_range.end - new_range.start) <= u32::MAX,   // table cells are u32
 /*@*/     ensures
 /*@*/         err_post(*vstd::prelude::old(d), *final(d), res),
-/*@*/         seg_post(*vstd::prelude::old(d), *final(d), old, old_range, new, new_range, fin::<D>(), res.is_ok()),
+/*@*/         seg_post(*vstd::prelude::old(d), *final(d), old, old_range, new, new_range, alg_lvl(None), fin::<D>(), res.is_ok()),
 {
     diff_deadline(d, old, old_range, new, new_range, None)
 }
